@@ -83,6 +83,13 @@ pub struct Inner {
     pub read_fails_at: Option<usize>,
     /// The reads that were refused: (ticket, lane id).
     pub read_refused: Vec<(u64, u64)>,
+    /// Degraded mode: `id_for` answers `StoreError::NoStoreAvailable` for every name (the request is
+    /// still recorded); nothing else may be called then.
+    pub no_ids: bool,
+    /// Fault injection: `id_for` of this name fails with an IO error (every time).
+    pub id_fails_for: Option<String>,
+    /// The `id_for` calls that were refused: (ticket, name).
+    pub id_refused: Vec<(u64, String)>,
 }
 
 #[derive(Clone, Default)]
@@ -139,6 +146,13 @@ impl NodePersistence for RecStore {
     fn id_for(&self, name: &str) -> Result<Self::LaneId, StoreError> {
         let mut g = self.0.lock();
         g.id_requests.push((ticket(), name.to_string()));
+        if g.no_ids {
+            return Err(StoreError::NoStoreAvailable);
+        }
+        if g.id_fails_for.as_deref() == Some(name) {
+            g.id_refused.push((ticket(), name.to_string()));
+            return Err(StoreError::Io(std::io::Error::new(std::io::ErrorKind::Other, "injected id_for failure")));
+        }
         if let Some(id) = g.state.ids.get(name) {
             return Ok(*id);
         }
